@@ -57,7 +57,7 @@ pub mod log_specification {
 
     /// C02: on a sorted list the first match is the longest specified module name that is a prefix of the
     /// target, else the default entry, else nothing (off)
-    pub proof fn lemma_first_match(mfs: Seq<ModuleFilter>, i: int, level: log::Level, target: Seq<char>)
+    pub proof fn lemma_first_match(mfs: Seq<ModuleFilter>, i: int, level: log::Level, target: Seq<char>) //@lemma C02
         requires 0 <= i <= mfs.len(),
         ensures
             match first_match(mfs, i, target) {
@@ -72,7 +72,7 @@ pub mod log_specification {
             lemma_first_match(mfs, i + 1, level, target);
         }
     }
-    pub proof fn lemma_longest_prefix(mfs: Seq<ModuleFilter>, level: log::Level, target: Seq<char>)
+    pub proof fn lemma_longest_prefix(mfs: Seq<ModuleFilter>, level: log::Level, target: Seq<char>) //@lemma C02
         requires sorted_desc_len(mfs), names_nonempty(mfs),
         ensures
             match first_match(mfs, 0, target) {
